@@ -216,6 +216,17 @@ def check_panic_sites(rep, fb):
                 continue
             inst = "%s::%s" % (cr.name, b["path"])
             rep.ob("panic.site-covered", inst, (cr.name, b["path"]) in IP.VISITED, "%d potential panic sites; body %s by the interpreter" % (n, "analysed" if (cr.name, b["path"]) in IP.VISITED else "NOT analysed"), loc_of(b))
+    # whatever harness executed a body: no completed path may leave a panic obligation unproved
+    byfn = {}
+    for (cn, fn), what in IP.UNPROVED.items():
+        byfn[(cn, fn)] = what
+    for cr in fb.workspace():
+        for b in cr.bodies:
+            if (cr.name, b["path"]) not in IP.VISITED:
+                continue
+            bad = sorted(byfn.get((cr.name, b["path"]), ()))
+            rep.ob("panic.interpreted", "%s::%s" % (cr.name, b["path"]), not bad,
+                   ("unproved panic obligations on an interpreted path: " + "; ".join(bad[:4])) if bad else "every assert / bounds / unwrap obligation met on the interpreted paths is proved from the path facts", loc_of(b))
 
 
 def check_ofb_one_backend(rep, fb):
